@@ -1,52 +1,7 @@
-"""Fail-closed translator: declarative facts and defect-shape switches read off
-/repo's working tree with Python's `ast`, emitted as coq/Generated.v.
-
-Every fact is extracted by matching an exact syntactic shape; an unexpected
-shape raises ShapeError (the check then reports the broken tie, naming
-Generated.v).  See DESIGN.md section 2.3.
-"""
+"""Shape switches for C06 (dagrt/codegen/dag_ast.py ASTSimplifyMapper.map_Block) -> coq/gen/GenC06.v"""
 import ast
-import os
 
-
-class ShapeError(Exception):
-    pass
-
-
-def _parse(repo, rel):
-    path = os.path.join(repo, rel)
-    with open(path) as f:
-        return ast.parse(f.read(), filename=path)
-
-
-def _find_class(tree, name):
-    for n in tree.body:
-        if isinstance(n, ast.ClassDef) and n.name == name:
-            return n
-    raise ShapeError("class %s not found" % name)
-
-
-def _find_def(node, name):
-    for n in node.body:
-        if isinstance(n, ast.FunctionDef) and n.name == name:
-            return n
-    raise ShapeError("def %s not found" % name)
-
-
-def _src(n):
-    return ast.unparse(n)
-
-
-def coq_bool(b):
-    return "true" if b else "false"
-
-
-def coq_string(s):
-    return '"' + s.replace('"', '""') + '"'
-
-
-def coq_string_list(l):
-    return "[" + "; ".join(coq_string(x) for x in l) + "]"
+from harness.tr import HEADER, ShapeError, _find_class, _find_def, _parse, _src, coq_bool
 
 
 # ------------------------------------------------------------------ C06
@@ -81,8 +36,7 @@ def simplify_flags(repo):
 
 
 def generate(repo):
-    out = ["(* GENERATED by harness/translate.py from %s -- do not edit *)" % repo,
-           "From Coq Require Import List String.", "Import ListNotations.", "Open Scope string_scope.", ""]
+    out = [HEADER % "c06"]
     rev, guard = simplify_flags(repo)
     out.append("(* dagrt/codegen/dag_ast.py ASTSimplifyMapper.map_Block *)")
     out.append("Definition simplify_rev_expand : bool := %s." % coq_bool(rev))
@@ -90,6 +44,3 @@ def generate(repo):
     return "\n".join(out) + "\n"
 
 
-if __name__ == "__main__":
-    import sys
-    print(generate(sys.argv[1] if len(sys.argv) > 1 else "/repo"))
